@@ -155,7 +155,7 @@ def owesNow (shortRead : Bool) (fault : String) : Option String :=
 /-- ServerIsBusy (`onServerIsBusy`): back-off now or a pending back-off applied before the store is used again;
     with reason "deadline is exceeded" on a short-time-out read the replica is only flagged -/
 def owesBusy (shortRead : Bool) (fault : String) : Bool :=
-  fault = "busy" || fault = "busyw" || (fault = "busydl" && !shortRead)
+  fault = "busy" || fault = "busyw" || fault = "busyww" || (fault = "busydl" && !shortRead)
 
 def isFatalFault (fault : String) : Bool :=
   fault = "flashback" || fault = "flashbacknp" || fault = "toolarge" || fault = "badmaxts" || fault = "rpccancel"
@@ -345,7 +345,7 @@ def faultNames : List String :=
   ["ok", "rpcerr", "down", "deadline", "nl", "nl1", "nl2", "nl3", "nlnext", "nlx", "epoch", "epochr", "epochold", "rnf",
    "busy", "busyw", "busydl", "stale", "snm", "dnr", "maxts", "diskfull", "dlmsg", "unk",
    "undet", "recov", "witness", "flashback", "flashbacknp", "toolarge", "badmaxts", "knir", "bucket", "notinit", "rinr",
-   "merging", "mismatch", "rpccancel", "grpccancel", "grpcdeadline"]
+   "merging", "mismatch", "rpccancel", "grpccancel", "grpcdeadline", "busyww"]
 def modeNames : List String := ["leader", "follower", "mixed", "learner", "prefer", "stale"]
 
 /-- the outcome table of `pdOracle.ValidateReadTS` for the harness' four ts classes -/
